@@ -78,6 +78,21 @@ Theorem C12_rr_balance :
 Proof. exact rr_balance. Qed.
 Print Assumptions C12_rr_balance.
 
+(* round robin, never to a removed pilot -- PARTIAL: stated for one
+   _schedule_tasks call under the registration invariant (every entry of
+   self._pids has role ADDED), which add_pilots/remove_pilots maintain for
+   commands that are not rejected; the preservation of that invariant along
+   histories is not proved here (checked by the only_added oracle clause and
+   by the correspondence on every run) *)
+Theorem C12_rr_only_added_partial :
+  forall (pl : list (Z * pil)) (pids : list Z),
+    pids <> [] -> (forall pid, In pid pids -> p_role (getp pid pl) = RAdded) ->
+    forall ts idx idx' ok ev, 0 <= idx ->
+      rr_loop pl pids idx ts = (idx', ok, ev) ->
+      forallb (fun a => role_eqb (a_role a) RAdded && memz (a_pid a) pids) (asgs_of ev) = true.
+Proof. exact rr_loop_only_added. Qed.
+Print Assumptions C12_rr_only_added_partial.
+
 (* backfilling usage accounting, full statement REFUTED on the code as it is:
    a history exists after which every task placed on a pilot has been reported
    finished and the pilot's usage figure is not 0 (Backfilling.update_tasks
